@@ -62,6 +62,37 @@ Fixpoint nodupb (l : list N) : bool :=
 Definition spec_valid (fs : fsys) (root : fname) : bool :=
   match unfold (S (length fs)) fs root with Some l => nodupb l | None => false end.
 
+(** *** Declarative processing order, independent of the reader: same recursion shape as [unfold].
+    Per suite file: first what its sub-suites process, the sub-suites in the order the suites section
+    lists them ([resolve_all]: instructions in file order, the matches of a glob sorted by path —
+    [resolve_instr]); then the suite's own cases [(p, c)], [c] in the order the cases section lists
+    them (same rule).  [None]: a file does not resolve / parse, or the fuel ran out (cycle); for a
+    valid hierarchy the fuel [S (length fs)] suffices (Proofs/SuiteValid.v). *)
+Fixpoint spec_processed (fuel : nat) (fs : fsys) (p : fname) : option (list (fname * fname)) :=
+  match fuel with
+  | O => None
+  | S fuel' =>
+      match lookup fs p with
+      | Some (SGood ss cs) =>
+          match resolve_all ss, resolve_all cs with
+          | Some subs, Some cases =>
+              let go :=
+                (fix go (l : list fname) : option (list (fname * fname)) :=
+                   match l with
+                   | [] => Some []
+                   | q :: l' =>
+                       match spec_processed fuel' fs q, go l' with
+                       | Some a, Some b => Some (a ++ b)
+                       | _, _ => None
+                       end
+                   end) in
+              option_map (fun from_subs => from_subs ++ map (fun c => (p, c)) cases) (go subs)
+          | _, _ => None
+          end
+      | _ => None
+      end
+  end.
+
 (** *** end-to-end case: a hierarchy on disk, the outcome constructed for every case, and what
     the real program did. *)
 Definition pairN_eqb := pair_eqb N.eqb N.eqb.
@@ -109,12 +140,19 @@ Definition check_c16 (c : c16_case) : bool * bool :=
     end,
     (* the property, on what the implementation did, independent of the model of the reader:
        the run is INVALID exactly when the hierarchy is (declaratively) invalid; an INVALID run has
-       nothing processed/executed; a valid one is consistent with the verdicts *)
+       nothing processed/executed; a valid one processed the cases in the declarative order
+       ([spec_processed]) and is consistent with the verdicts *)
     Bool.eqb (sc_obs_invalid c) (negb (spec_valid (sc_fs c) (sc_root c))) &&
     if sc_obs_invalid c then
       Z.eqb (sc_obs_exit c) 3 && match sc_obs_processed c with [] => true | _ => false end &&
       match sc_obs_executed c with [] => true | _ => false end
     else
+      (* the cases were processed in the declarative order: sub-suites first, then the suite's own
+         cases, in listing order, glob matches sorted by path *)
+      match spec_processed (S (length (sc_fs c))) (sc_fs c) (sc_root c) with
+      | Some l => list_eqb pairN_eqb (sc_obs_processed c) l
+      | None => false
+      end &&
       let n_bad := length (filter (fun r => negb (successful r)) results) in
       match sc_reporter c with
       | Progress =>
